@@ -873,6 +873,15 @@ func (p *Path) conv(dst, src types.Type, x Value) Value {
 			case uint64:
 				return string(rune(v))
 			}
+			if t, ok := x.(*smt.Term); ok {
+				r := t
+				if r.Sort.W < 32 {
+					r = p.C.Zext(r, 32)
+				} else if r.Sort.W > 32 {
+					r = p.C.Extract(r, 31, 0)
+				}
+				return mkStr(p.encodeRune(r))
+			}
 			p.unsupported("string(symbolic rune)")
 		}
 		if isInteger(us) && isInteger(db) {
